@@ -44,7 +44,7 @@ fn flip_case(code: i64, p: &[i128], ptw: &[i128]) -> (Vec<Vec<i128>>, Vec<Vec<i1
             let module: Module<BE> = Module::<BE>::new(8);
             let mk = |seed: &[u8; 32]| { let mut sk = LWESecret::alloc(Degree(n as u32)); fill_lwe_secret(&mut sk, kind, param, &mut Source::new(*seed)); sk };
             let (sk, sk2) = (mk(&sxs), mk(&flip_seed(&sxs)));
-            let mut sc: ScratchOwned<BE> = ScratchOwned::alloc(1 << 16);
+            let mut sc: ScratchOwned<BE> = garbage_scratch::<BE>(1 << 16);
             let mut run = |ptw: &[i128], sk: &LWESecret<Vec<u8>>, xe: &[u8; 32], xa: &[u8; 32]| -> Vec<i128> {
                 let mut pt = LWEPlaintext::alloc(Base2K(b as u32), TorusPrecision((psize * b) as u32));
                 set_col(pt.data_mut(), 0, ptw);
@@ -73,7 +73,7 @@ fn flip_case(code: i64, p: &[i128], ptw: &[i128]) -> (Vec<Vec<i128>>, Vec<Vec<i1
         }
         let module: Module<BE> = Module::<BE>::new(n as u64);
         let li = GLWELayout { n: Degree(n as u32), base2k: Base2K(b as u32), k: TorusPrecision((size * b) as u32), rank: Rank(rank as u32) };
-        let mut sc: ScratchOwned<BE> = ScratchOwned::alloc(module.glwe_encrypt_sk_tmp_bytes(&li) + 4096);
+        let mut sc: ScratchOwned<BE> = garbage_scratch::<BE>(module.glwe_encrypt_sk_tmp_bytes(&li) + 4096);
         let (sk, s) = glwe_secret(n, rank, kind, param, &sxs);
         let (sk2, s2) = glwe_secret(n, rank, kind, param, &flip_seed(&sxs));
         let mut run = |ptw: &[i128], sk: &GLWESecret<Vec<u8>>, xe: &[u8; 32], xa: &[u8; 32]| -> Vec<i128> {
@@ -146,7 +146,7 @@ fn gadget_case(code: i64, p: &[i128], msg: &[i128]) -> (Vec<Vec<i128>>, Vec<Vec<
     let (rk_in, rk_out, dnm, dsz) = (Rank(h.rin as u32), Rank(h.rout as u32), Dnum(h.dnum as u32), Dsize(h.dsize as u32));
     with_be!(h.be, BE, {
         let module: Module<BE> = Module::<BE>::new(n as u64);
-        let mut sc: ScratchOwned<BE> = ScratchOwned::alloc(1 << 22);
+        let mut sc: ScratchOwned<BE> = garbage_scratch::<BE>(1 << 22);
         let clen = h.rout * h.size * n;
         let polys = |flat: &[i64]| -> Vec<Vec<i64>> { flat.chunks(n).map(|c| c.to_vec()).collect() };
         if code == 6005 {
@@ -165,18 +165,21 @@ fn gadget_case(code: i64, p: &[i128], msg: &[i128]) -> (Vec<Vec<i128>>, Vec<Vec<
                     fill_lwe_secret(&mut skl, 2, 8, &mut Source::new(*xl));
                     let mut key = BlindRotationKey::<Vec<u8>, CGGI>::alloc(&lay);
                     key.encrypt_sk(&module, &skp, &skl, &noise, &mut Source::new(*xe), &mut Source::new(*xa), sc.borrow());
-                    (brk_cells(&ser(&key), h.idx, n, h.size, rank, h.dnum), skl.raw()[h.idx])
+                    let by = ser(&key);
+                    ((0..nl).flat_map(|i| brk_cells(&by, i, n, h.size, rank, h.dnum)).collect(), skl.raw()[h.idx])
                 };
-                let (c0, bit) = run(&sxo, &sxi, &sxe, &sxa);
-                let flags = gadget_flags(&c0, &run(&sxo, &sxi, &sxe, &sxa).0, &run(&flip_seed(&sxo), &flip_seed(&sxi), &sxe, &sxa).0,
-                                         &run(&sxo, &sxi, &flip_seed(&sxe), &sxa).0, &run(&sxo, &sxi, &sxe, &flip_seed(&sxa)).0, cells, h.rout, h.size, n);
+                let cw = (rank + 1) * h.size * n;
+                let ent = |w: Vec<i128>| -> Vec<i128> { w[h.idx * cells * cw..(h.idx + 1) * cells * cw].to_vec() };
+                let (whole, bit) = run(&sxo, &sxi, &sxe, &sxa);
+                let c0 = ent(whole.clone());
+                let mut flags = gadget_flags(&c0, &ent(run(&sxo, &sxi, &sxe, &sxa).0), &ent(run(&flip_seed(&sxo), &flip_seed(&sxi), &sxe, &sxa).0),
+                                         &ent(run(&sxo, &sxi, &flip_seed(&sxe), &sxa).0), &ent(run(&sxo, &sxi, &sxe, &flip_seed(&sxa)).0), cells, h.rout, h.size, n);
+                flags.push(masks_distinct(&whole, nl * cells, rank, h.size, n));
                 let (_, s) = glwe_secret(n, rank, h.skind, h.sparam, &sxo);
-                let skip = h.idx * cells;
-                let ua = |seed: &[u8; 32]| -> Vec<i128> { raw_u64(seed, (skip + cells) * clen)[skip * clen..].to_vec() };
+                let ua = |seed: &[u8; 32]| -> Vec<i128> { raw_u64(seed, nl * cells * clen) };
                 let errs = |seed: &[u8; 32]| -> Vec<i128> {
                     let mut xe = Source::new(*seed);
-                    for _ in 0..skip { let _ = replay_error(&module, n, h.b, h.size, noise, &mut xe); }
-                    (0..cells).flat_map(|_| to128(&replay_error(&module, n, h.b, h.size, noise, &mut xe))).collect()
+                    (0..nl * cells).flat_map(|_| to128(&replay_error(&module, n, h.b, h.size, noise, &mut xe))).collect()
                 };
                 let mut m = vec![0i128; n]; m[0] = bit as i128;
                 return (vec![m, to128(&s), ua(&sxa), errs(&sxe), ua(&flip_seed(&sxa)), errs(&flip_seed(&sxe))], vec![c0, flags]);
@@ -195,8 +198,9 @@ fn gadget_case(code: i64, p: &[i128], msg: &[i128]) -> (Vec<Vec<i128>>, Vec<Vec<
             };
             let mut msg2 = msg.to_vec(); msg2[0] = if msg2[0] >= 1 { msg2[0] - 1 } else { msg2[0] + 1 };
             let c0 = run(msg, &sxo, &sxe, &sxa);
-            let flags = gadget_flags(&c0, &run(msg, &sxo, &sxe, &sxa), &run(&msg2, &sxo, &sxe, &sxa), &run(msg, &sxo, &flip_seed(&sxe), &sxa),
+            let mut flags = gadget_flags(&c0, &run(msg, &sxo, &sxe, &sxa), &run(&msg2, &sxo, &sxe, &sxa), &run(msg, &sxo, &flip_seed(&sxe), &sxa),
                                      &run(msg, &sxo, &sxe, &flip_seed(&sxa)), cells, h.rout, h.size, n);
+            flags.push(masks_distinct(&c0, cells, h.rout, h.size, n));
             let (_, s) = glwe_secret(n, rank, h.skind, h.sparam, &sxo);
             let errs = |seed: &[u8; 32]| -> Vec<i128> { let mut xe = Source::new(*seed); (0..cells).flat_map(|_| to128(&replay_error(&module, n, h.b, h.size, noise, &mut xe))).collect() };
             return (vec![to128(&s), raw_u64(&sxa, cells * clen), errs(&sxe), raw_u64(&flip_seed(&sxa), cells * clen), errs(&flip_seed(&sxe))],
@@ -272,28 +276,41 @@ fn gadget_case(code: i64, p: &[i128], msg: &[i128]) -> (Vec<Vec<i128>>, Vec<Vec<
                     let mut g = GGLWEToGGSWKey::alloc(dn, b2, kk, rk_out, dnm, dsz);
                     GGLWEToGGSWKeyEncryptSk::gglwe_to_ggsw_key_encrypt_sk(&module, &mut g, &sk_out, &noise, &mut xe, &mut xa, sc.borrow());
                     let sp = polys(&s_out_lib);
-                    (dump(&g.at(h.idx).to_ref()), (0..rout).map(|j| negamul(&sp[h.idx], &sp[j])).collect(), s_out_lib)
+                    ((0..rout).flat_map(|i| dump(&g.at(i).to_ref())).collect(), (0..rout).map(|j| negamul(&sp[h.idx], &sp[j])).collect(), s_out_lib)
                 }
             }
         };
         let mut msg2 = msg.to_vec();
         if !msg2.is_empty() { msg2[0] = if msg2[0] >= 1 { msg2[0] - 1 } else { msg2[0] + 1 }; }
-        let (c0, ms, s_out) = run(msg, &sxo, &sxi, &sxe, &sxa);
+        // `run` returns the cells of the WHOLE object (all entries of a GGLWE->GGSW key); the record is about entry h.idx
+        let entries = if h.kind == 4 { rout } else { 1 };
+        let entry = if h.kind == 4 { h.idx } else { 0 };
+        let cw = (rout + 1) * h.size * n;
+        let ent = |w: Vec<i128>| -> Vec<i128> { w[entry * cells * cw..(entry + 1) * cells * cw].to_vec() };
+        let (whole, ms, s_out) = run(msg, &sxo, &sxi, &sxe, &sxa);
+        let c0 = ent(whole.clone());
         // "another plaintext": kind 0 another message, key material: other secrets (plaintext AND secret change)
         let other_pt = if h.kind == 0 { run(&msg2, &sxo, &sxi, &sxe, &sxa).0 } else { run(msg, &flip_seed(&sxo), &flip_seed(&sxi), &sxe, &sxa).0 };
-        let flags = gadget_flags(&c0, &run(msg, &sxo, &sxi, &sxe, &sxa).0, &other_pt, &run(msg, &sxo, &sxi, &flip_seed(&sxe), &sxa).0,
-                                 &run(msg, &sxo, &sxi, &sxe, &flip_seed(&sxa)).0, cells, rout, h.size, n);
-        // streams and errors of this object (a GGLWE->GGSW entry starts after the cells of the earlier entries)
-        let skip = if h.kind == 4 { h.idx * cells } else { 0 };
-        let ua = |seed: &[u8; 32]| -> Vec<i128> { raw_u64(seed, (skip + cells) * clen)[skip * clen..].to_vec() };
+        let mut flags = gadget_flags(&c0, &ent(run(msg, &sxo, &sxi, &sxe, &sxa).0), &ent(other_pt), &ent(run(msg, &sxo, &sxi, &flip_seed(&sxe), &sxa).0),
+                                 &ent(run(msg, &sxo, &sxi, &sxe, &flip_seed(&sxa)).0), cells, rout, h.size, n);
+        flags.push(masks_distinct(&whole, entries * cells, rout, h.size, n));
+        // mask stream and errors of the WHOLE object: the model derives which part belongs to the entry
+        let ua = |seed: &[u8; 32]| -> Vec<i128> { raw_u64(seed, entries * cells * clen) };
         let errs = |seed: &[u8; 32]| -> Vec<i128> {
             let mut xe = Source::new(*seed);
-            for _ in 0..skip { let _ = replay_error(&module, n, h.b, h.size, noise, &mut xe); }
-            (0..cells).flat_map(|_| to128(&replay_error(&module, n, h.b, h.size, noise, &mut xe))).collect()
+            (0..entries * cells).flat_map(|_| to128(&replay_error(&module, n, h.b, h.size, noise, &mut xe))).collect()
         };
         let msw: Vec<i128> = ms.iter().flat_map(|m| to128(m)).collect();
         (vec![msw, to128(&s_out), ua(&sxa), errs(&sxe), ua(&flip_seed(&sxa)), errs(&flip_seed(&sxe))], vec![c0, flags])
     })
+}
+
+/// 1 iff the mask columns of all `cells` cells (cell = (rout+1) columns of size*n words, body first) are pairwise distinct
+fn masks_distinct(w: &[i128], cells: usize, rout: usize, size: usize, n: usize) -> i128 {
+    let cw = (rout + 1) * size * n; let bw = size * n;
+    let m: Vec<&[i128]> = (0..cells).map(|s| &w[s * cw + bw..(s + 1) * cw]).collect();
+    for i in 0..cells { for j in 0..i { if m[i] == m[j] { return 0; } } }
+    1
 }
 
 /// [deterministic; mask_eq(other plaintext); mask_eq(other error seed); body_eq(other error seed); mask_eq(other mask seed)]
@@ -303,6 +320,117 @@ fn gadget_flags(c0: &[i128], again: &[i128], cpt: &[i128], cxe: &[i128], cxa: &[
     let bodies = |c: &[i128]| -> Vec<i128> { (0..cells).flat_map(|s| c[s * cw..s * cw + bw].to_vec()).collect() };
     vec![(c0 == again) as i128, (masks(cpt) == masks(c0)) as i128, (masks(cxe) == masks(c0)) as i128,
          (bodies(cxe) == bodies(c0)) as i128, (masks(cxa) == masks(c0)) as i128]
+}
+
+// ------------------------------------------------------------------ 6006: seed derivation of the compressed composite objects
+/// (seeds in slot order, bytes consumed) of a serialised GGLWECompressed / GGSWCompressed starting at `skip`
+fn parse_seeds(bytes: &[u8], skip: usize) -> (Vec<[u8; 32]>, usize) {
+    let b = &bytes[skip..];
+    let cnt = u32::from_le_bytes(b[16..20].try_into().unwrap()) as usize;
+    let seeds = (0..cnt).map(|i| b[20 + 32 * i..52 + 32 * i].try_into().unwrap()).collect();
+    let m = 20 + 32 * cnt;
+    let len = u64::from_le_bytes(b[m + 40..m + 48].try_into().unwrap()) as usize;
+    (seeds, skip + m + 48 + len)
+}
+
+/// kinds: 0 GGLWE 1 switching key 2 automorphism key 3 tensor key 4 GGLWE->GGSW key (rank_out entries) 8 GGSW
+///        9 CGGI blind-rotation key (ps[4] entries).  Output: the seeds stored in the object (entry-major, slot order) and
+/// [stored seeds pairwise distinct; masks of all decompressed cells pairwise distinct].
+/// vs = [table seeds; table streams]: the ChaCha8 stream (first tlen words) of the root seed and, for the two-level objects, of
+/// the first `entries` seeds drawn from it -- the model looks streams up by seed and decides itself which seed each entry gets.
+fn seeds_case(p: &[i128]) -> (Vec<Vec<i128>>, Vec<Vec<i128>>) {
+    let h = gd(p);
+    let (sxo, sxi, sxe, sxa) = (gseed(p, 0), gseed(p, 1), gseed(p, 2), gseed(p, 3));
+    let noise = NoiseInfos::new(h.nk, h.sigma, h.bound).unwrap();
+    let n = h.n;
+    let (dn, b2, kk) = (Degree(n as u32), Base2K(h.b as u32), TorusPrecision((h.size * h.b) as u32));
+    let (rk_in, rk_out, dnm, dsz) = (Rank(h.rin as u32), Rank(h.rout as u32), Dnum(h.dnum as u32), Dsize(h.dsize as u32));
+    let (rin, rout) = (h.rin, h.rout);
+    with_be!(h.be, BE, {
+        let module: Module<BE> = Module::<BE>::new(n as u64);
+        let mut sc: ScratchOwned<BE> = garbage_scratch::<BE>(1 << 22);
+        let (sk_out, _) = glwe_secret(n, rout, h.skind, h.sparam, &sxo);
+        let (sk_in, _) = glwe_secret(n, rin, h.skind, h.sparam, &sxi);
+        let mut skp = module.glwe_secret_prepared_alloc(rk_out);
+        module.glwe_secret_prepare(&mut skp, &sk_out);
+        let ggsw_like = h.kind >= 8;
+        let cols = if ggsw_like { rout + 1 } else { rin };
+        let cells = h.dnum * cols;
+        let entries = match h.kind { 4 => rout, 9 => rin, _ => 1 };
+        let dumpg = |g: &GGLWE<&[u8]>| -> Vec<i128> { let mut w = Vec::new(); for row in 0..h.dnum { for col in 0..rin { w.extend(all_cols(g.at(row, col).data())); } } w };
+        let dumps = |g: &GGSW<Vec<u8>>| -> Vec<i128> { let mut w = Vec::new(); for row in 0..h.dnum { for col in 0..=rout { w.extend(all_cols(g.at(row, col).data())); } } w };
+        // (serialised compressed object, offset of its first GGLWE/GGSW-compressed entry, all decompressed cells)
+        let (bytes, first, whole): (Vec<u8>, usize, Vec<i128>) = match h.kind {
+            0 => {
+                let mut pt = ScalarZnx::alloc(n, rin); for c in 0..rin { pt.fill_ternary_prob(c, 0.5, &mut Source::new(sxi)); }
+                let mut cc = GGLWECompressed::alloc(dn, b2, kk, rk_in, rk_out, dnm, dsz);
+                module.gglwe_compressed_encrypt_sk(&mut cc, &pt, &skp, sxa, &noise, &mut Source::new(sxe), sc.borrow());
+                let mut g = GGLWE::alloc(dn, b2, kk, rk_in, rk_out, dnm, dsz); module.decompress_gglwe(&mut g, &cc);
+                (ser(&cc), 0, dumpg(&g.to_ref()))
+            }
+            1 => {
+                let mut kc = GLWESwitchingKeyCompressed::alloc(dn, b2, kk, rk_in, rk_out, dnm, dsz);
+                module.glwe_switching_key_compressed_encrypt_sk(&mut kc, &sk_in, &sk_out, sxa, &noise, &mut Source::new(sxe), sc.borrow());
+                let mut g = GLWESwitchingKey::alloc(dn, b2, kk, rk_in, rk_out, dnm, dsz); module.decompress_glwe_switching_key(&mut g, &kc);
+                (ser(&kc), 8, dumpg(&g.to_ref()))
+            }
+            2 => {
+                let gal = module.galois_element(h.x10 as i64);
+                let mut kc = GLWEAutomorphismKeyCompressed::alloc(dn, b2, kk, rk_out, dnm, dsz);
+                module.glwe_automorphism_key_compressed_encrypt_sk(&mut kc, gal, &sk_out, sxa, &noise, &mut Source::new(sxe), sc.borrow());
+                let mut g = GLWEAutomorphismKey::alloc(dn, b2, kk, rk_out, dnm, dsz); module.decompress_automorphism_key(&mut g, &kc);
+                (ser(&kc), 8, dumpg(&g.to_ref()))
+            }
+            3 => {
+                let mut kc = GLWETensorKeyCompressed::alloc(dn, b2, kk, rk_out, dnm, dsz);
+                module.glwe_tensor_key_compressed_encrypt_sk(&mut kc, &sk_out, sxa, &noise, &mut Source::new(sxe), sc.borrow());
+                let mut g = GLWETensorKey::alloc(dn, b2, kk, rk_out, dnm, dsz); module.decompress_tensor_key(&mut g, &kc);
+                (ser(&kc), 0, dumpg(&g.to_ref()))
+            }
+            4 => {
+                let mut kc = GGLWEToGGSWKeyCompressed::alloc(dn, b2, kk, rk_out, dnm, dsz);
+                GGLWEToGGSWKeyCompressedEncryptSk::gglwe_to_ggsw_key_encrypt_sk(&module, &mut kc, &sk_out, sxa, &noise, &mut Source::new(sxe), sc.borrow());
+                let mut g = GGLWEToGGSWKey::alloc(dn, b2, kk, rk_out, dnm, dsz); module.decompress_gglwe_to_ggsw_key(&mut g, &kc);
+                (ser(&kc), 8, (0..rout).flat_map(|i| dumpg(&g.at(i).to_ref())).collect())
+            }
+            8 => {
+                let mut m = ScalarZnx::alloc(n, 1); m.fill_ternary_prob(0, 0.5, &mut Source::new(sxi));
+                let mut gc = GGSWCompressed::alloc(dn, b2, kk, rk_out, dnm, dsz);
+                module.ggsw_compressed_encrypt_sk(&mut gc, &m, &skp, sxa, &noise, &mut Source::new(sxe), sc.borrow());
+                let mut g = GGSW::alloc(dn, b2, kk, rk_out, dnm, dsz); module.decompress_ggsw(&mut g, &gc);
+                (ser(&gc), 0, dumps(&g))
+            }
+            _ => {
+                use poulpy_bin_fhe::blind_rotation::{BlindRotationKeyCompressed, BlindRotationKeyCompressedEncryptSk, BlindRotationKeyLayout, CGGI};
+                let lay = BlindRotationKeyLayout { n_glwe: dn, n_lwe: Degree(rin as u32), base2k: b2, k: kk, dnum: dnm, rank: rk_out };
+                let mut skl = LWESecret::alloc(Degree(rin as u32)); fill_lwe_secret(&mut skl, 2, 8, &mut Source::new(sxi));
+                let mut key = BlindRotationKeyCompressed::<Vec<u8>, CGGI>::alloc(&lay);
+                module.blind_rotation_key_compressed_encrypt_sk(&mut key, &skp, &skl, sxa, &noise, &mut Source::new(sxe), sc.borrow());
+                let all = ser(&key);
+                let mut w = Vec::new(); let mut off = 16;
+                for _ in 0..rin {
+                    let end = parse_seeds(&all, off).1;
+                    let mut gc = GGSWCompressed::alloc(dn, b2, kk, rk_out, dnm, dsz); gc.read_from(&mut &all[off..end]).unwrap();
+                    let mut g = GGSW::alloc(dn, b2, kk, rk_out, dnm, dsz); module.decompress_ggsw(&mut g, &gc);
+                    w.extend(dumps(&g)); off = end;
+                }
+                (all, 16, w)
+            }
+        };
+        let mut stored: Vec<[u8; 32]> = vec![]; let mut off = first;
+        for _ in 0..entries { let (sd, end) = parse_seeds(&bytes, off); assert_eq!(sd.len(), cells); stored.extend(sd); off = end; }
+        let mut sdist = 1i128;
+        for i in 0..stored.len() { for j in 0..i { if stored[i] == stored[j] { sdist = 0; } } }
+        let flags = vec![sdist, masks_distinct(&whole, entries * cells, rout, h.size, n)];
+        // stream table
+        let tlen = 4 * cells.max(entries);
+        let root_stream = raw_u64(&sxa, tlen);
+        let mut tseeds: Vec<i128> = seed_words(&sxa); let mut tstreams = root_stream.clone();
+        if entries > 1 || h.kind == 4 || h.kind == 9 {
+            for i in 0..entries { let sd = words_seed(&root_stream[4 * i..4 * i + 4]); tseeds.extend(seed_words(&sd)); tstreams.extend(raw_u64(&sd, tlen)); }
+        }
+        (vec![tseeds, tstreams], vec![stored.iter().flat_map(|s| seed_words(s)).collect(), flags])
+    })
 }
 
 // ------------------------------------------------------------------ 6020: statistics (support)
@@ -362,7 +490,7 @@ fn stats_case(p: &[i128]) -> Vec<i128> {
     let split = |w: &[i128], cols: usize| -> Vec<Vec<i64>> { w.chunks(size * n).take(cols).map(|c| v64(c)).collect() };
     with_be!(be, BE, {
         let module: Module<BE> = Module::<BE>::new(if layout == 1 { 8 } else { n as u64 });
-        let mut sc: ScratchOwned<BE> = ScratchOwned::alloc(1 << 22);
+        let mut sc: ScratchOwned<BE> = garbage_scratch::<BE>(1 << 22);
         let (dn, b2, kk) = (Degree(n as u32), Base2K(b as u32), TorusPrecision((size * b) as u32));
         for _ in 0..cts {
             let (sxs, sxe, sxa) = (seeds.new_seed(), seeds.new_seed(), seeds.new_seed());
@@ -441,8 +569,9 @@ fn stats_case(p: &[i128]) -> Vec<i128> {
 pub fn exec(r: &Rec) -> Out {
     let r2 = r.clone();
     guard(move || match r2.code {
-        6001 | 6002 => flip_case(r2.code, &r2.ps, &r2.vs[0]).1,
-        6004 | 6005 => gadget_case(r2.code, &r2.ps, &r2.vs[0]).1,
+        6001 | 6002 => two_fills(|| flip_case(r2.code, &r2.ps, &r2.vs[0]).1),
+        6004 | 6005 => two_fills(|| gadget_case(r2.code, &r2.ps, &r2.vs[0]).1),
+        6006 => two_fills(|| seeds_case(&r2.ps).1),
         6020 => vec![stats_case(&r2.ps)],
         _ => panic!("c06: unknown op"),
     })
@@ -526,6 +655,25 @@ pub fn generate(tier: &str, seed: u64) -> Vec<Rec> {
         let mut vs = if (code == 6004 || brk) && !derived.is_empty() { vec![] } else { vec![msg.clone()] };
         vs.extend(derived);
         out.push(Rec::new(code, ps, vs));
+    }
+    // ---- seed derivation and pairwise-distinct masks of the compressed composite objects
+    let reps = if tier == "thorough" { 420 } else { 84 };
+    for it in 0..reps {
+        let kind: i128 = [0, 1, 2, 3, 4, 8, 9][it % 7];
+        let be = 1 + (it / 7) as i128 % 4;
+        let n = 1usize << rng.range(3, 4);
+        let rout = if kind == 4 { rng.range(2, 3) as usize } else { rng.range(1, 3) as usize };
+        let rin = match kind { 2 | 4 => rout, 3 => rout * (rout + 1) / 2, 9 => rng.range(2, 5) as usize, _ => rng.range(1, 3) as usize };
+        let b = rng.range(8, if be <= 2 { 40 } else { 52 }) as usize;
+        let dsize = if kind == 9 { 1 } else { rng.range(1, 2) as usize };
+        let dnum = rng.range(1, 3) as usize;
+        let size = (dnum * dsize).max(dsize + 1);
+        let nk = size * b - rng.range(0, b as i64 - 1) as usize;
+        let mut ps: Vec<i128> = vec![be, n as i128, b as i128, size as i128, rin as i128, rout as i128, dnum as i128, dsize as i128, nk as i128,
+            kind, rng.range(-5, 5) as i128, 3200, 19200, 0, 8, 0];
+        for _ in 0..4 { ps.extend(seed_words(&rng.bytes32())); }
+        let vs = std::panic::catch_unwind(|| seeds_case(&ps).0).unwrap_or_default();
+        out.push(Rec::new(6006, ps, vs));
     }
     // ---- statistics: >= 2^14 coefficients per layout
     let layouts: &[(i128, usize, usize, usize, usize)] = &[   // (layout, n, b, size, rank)
